@@ -152,7 +152,8 @@ static void run_result(const tensor_size_t folds, const tensor_size_t batch1, co
         for (tensor_size_t index = folds * batch; index-- > 0;)
         {
             const auto fold = index % folds, trial = index / folds;
-            result.store(old + trial, fold, make_values(code(old + trial, fold) + 0.25, 1.0, 3), make_values(code(old + trial, fold), 2.0, 5),
+            // folds of unequal sizes (k-fold with a remainder): the per-fold means must still weigh the same
+            result.store(old + trial, fold, make_values(code(old + trial, fold) + 0.25, 1.0, 3 + fold), make_values(code(old + trial, fold), 2.0, 5 + 2 * fold),
                          std::any{static_cast<int>(code(old + trial, fold))});
         }
         old += batch;
@@ -203,6 +204,35 @@ static int run_paths(const tensor_size_t folds, const tensor_size_t trials)
     return mismatches;
 }
 
+// folds of unequal sizes: the value of a trial is the mean of the per-fold validation means (every fold the same weight),
+// not the pooled per-sample mean; two trials whose ranking differs between the two
+static void run_unequal_folds()
+{
+    const std::string ctx = "folds of 3, 3, 4 validation samples; trial 0 errors (.30,.30,.00), trial 1 errors (.10,.10,.35)";
+    auto       result = ml::result_t{make_spaces(1, 4), 3};
+    tensor2d_t params(2, 1);
+    params.zero();
+    result.add(params);
+    const double        errors[2][3] = {{0.30, 0.30, 0.00}, {0.10, 0.10, 0.35}};
+    const tensor_size_t sizes[3]     = {3, 3, 4};
+    for (tensor_size_t t = 0; t < 2; ++t)
+        for (tensor_size_t f = 0; f < 3; ++f) result.store(t, f, make_values(0.5, 0.5, 10 - sizes[f]), make_values(errors[t][f], 1.0, sizes[f]));
+    for (tensor_size_t t = 0; t < 2; ++t)
+    {
+        const auto mean = (errors[t][0] + errors[t][1] + errors[t][2]) / 3.0;
+        check(std::fabs(result.value(t) - mean) < 1e-12, "value(trial) is the mean across folds of the per-fold validation means (equal weights)", ctx);
+        const auto vs = result.values(make_range(0, 2));
+        check(std::fabs(vs(t) - mean) < 1e-12, "values(range)(trial) is value(trial)", ctx);
+        for (tensor_size_t f = 0; f < 3; ++f)
+        {
+            const auto st = result.stats(t, f, ml::split_type::valid, ml::value_type::errors);
+            check(std::fabs(st.m_mean - errors[t][f]) < 1e-12 && st.m_count == static_cast<double>(sizes[f]),
+                  "stats(trial, fold, valid, errors) holds that fold's mean and sample count", ctx);
+        }
+    }
+    check(result.optimum_trial() == 1, "optimum_trial() is the trial with the smallest mean validation error across folds", ctx);
+}
+
 // informational: optimum_trial() starts its running minimum at DBL_MAX, so a trial whose mean validation error is exactly
 // DBL_MAX never wins against +inf
 static void run_corner()
@@ -232,6 +262,7 @@ int main(int argc, char** argv)
         for (const tensor_size_t folds : {1, 2, 3, 10})
             for (const tensor_size_t b1 : {1, 3, 9})
                 for (const tensor_size_t b2 : {1, 4}) run_result(folds, b1, b2);
+        run_unequal_folds();
     }
     if (what == "paths" || what == "all")
     {
